@@ -42,7 +42,7 @@ func FirstMatchWins(p *load.Program, r *report.Report, fnKey string) {
 		r.Unknown(rule, key, p.Pos(f.Pos()), "no scan loop found")
 		return
 	}
-	n := 0
+	n, unit := 0, 0
 	for _, ret := range ssau.Returns(f) {
 		if len(ret.Results) == 0 {
 			continue
@@ -72,14 +72,111 @@ func FirstMatchWins(p *load.Program, r *report.Report, fnKey string) {
 				return
 			}
 		}
-		// the return must be reached without going round the loop again: its block lies inside the loop
-		// body or is dominated by the matching iteration
+		// every offset is a candidate: the detected size is the position of a unit-step scan (the induction variable of a
+		// loop, or its successor in the rotated form of `for i := range`), not an element of a list of expected sizes —
+		// sizes 189, 190 and 191 are detected like 188 and 192
+		for _, lf := range scanLeaves(ret.Results[0], hs) {
+			if _, isConst := lf.(*ssa.Const); isConst {
+				continue
+			}
+			if !isUnitStepIndex(lf, hs) {
+				r.Bad(rule, "autoDetectPacketSize/every-offset-is-a-candidate", p.Pos(ret.Pos()), "the returned packet size ("+lf.String()+") is not the position of a unit-step scan over the peeked bytes: only some offsets between 188 and 192 can be detected")
+				return
+			}
+			unit++
+		}
+	}
+	if n > 0 {
+		if unit > 0 {
+			r.OK(rule, "autoDetectPacketSize/every-offset-is-a-candidate", p.Pos(f.Pos()), fmt.Sprintf("%d detected-size values, each the induction variable of a unit-step scan", unit))
+		} else {
+			r.Unknown(rule, "autoDetectPacketSize/every-offset-is-a-candidate", p.Pos(f.Pos()), "no non-constant detected size found")
+		}
 	}
 	if n == 0 {
 		r.Unknown(rule, key, p.Pos(f.Pos()), "no return of a detected packet size found")
 		return
 	}
 	r.OK(rule, key, p.Pos(f.Pos()), fmt.Sprintf("%d returns of a detected size, each the scan index of the iteration that matched", n))
+}
+
+// scanLeaves resolves v through spill slots and phis that are not loop headers.
+func scanLeaves(v ssa.Value, hs map[*ssa.BasicBlock]bool) []ssa.Value {
+	var out []ssa.Value
+	seen := map[ssa.Value]bool{}
+	var rec func(v ssa.Value)
+	rec = func(v ssa.Value) {
+		if v == nil || seen[v] {
+			return
+		}
+		seen[v] = true
+		switch x := v.(type) {
+		case *ssa.Phi:
+			if hs[x.Block()] {
+				out = append(out, x)
+				return
+			}
+			for _, e := range x.Edges {
+				rec(e)
+			}
+			return
+		case *ssa.UnOp:
+			if x.Op == token.MUL {
+				if a, ok := x.X.(*ssa.Alloc); ok && ssau.SpillSlot(a) {
+					vals, zero := ssau.ReachingStores(a, x)
+					for _, s := range vals {
+						rec(s)
+					}
+					if zero && len(vals) == 0 {
+						out = append(out, ssa.NewConst(nil, x.Type()))
+					}
+					return
+				}
+			}
+		case *ssa.Convert:
+			rec(x.X)
+			return
+		case *ssa.ChangeType:
+			rec(x.X)
+			return
+		}
+		out = append(out, v)
+	}
+	rec(v)
+	return out
+}
+
+// isUnitStepIndex: v is a loop-header phi whose back edge brings v+1, or that v+1 itself.
+func isUnitStepIndex(v ssa.Value, hs map[*ssa.BasicBlock]bool) bool {
+	isIdx := func(phi *ssa.Phi) bool {
+		if !hs[phi.Block()] {
+			return false
+		}
+		for i, e := range phi.Edges {
+			if !phi.Block().Dominates(phi.Block().Preds[i]) {
+				continue
+			}
+			if b, ok := e.(*ssa.BinOp); ok && b.Op == token.ADD && b.X == ssa.Value(phi) {
+				if k, ok := ssau.ConstInt(b.Y); ok && k == 1 {
+					return true
+				}
+			}
+		}
+		return false
+	}
+	switch x := v.(type) {
+	case *ssa.Phi:
+		return isIdx(x)
+	case *ssa.BinOp:
+		if x.Op == token.ADD {
+			if k, ok := ssau.ConstInt(x.Y); ok && k == 1 {
+				if phi, ok := x.X.(*ssa.Phi); ok {
+					return isIdx(phi)
+				}
+			}
+		}
+	}
+	return false
 }
 
 // phisOf lists the phi nodes a value is built from (through phis and spill slots).
